@@ -13,7 +13,7 @@ rooms / server-sent distributed parameters are stored, open sockets).  The Lean 
 script with `Session.step`; the canonical lines must be equal.
 
 case = {'cfg': {...}, 'ops': [[op, arg?]...], 'kind': str}
-  ops: start | login | logincut j | exec | populate | search | wl | pp | loss <reason> | tick n | srvup b
+  ops: start | login | logincut j | exec | populate | search | wl | pp | sr | loss <reason> | tick n | srvup b
        | srvreply accepted|rejected|garbled|eof | stop          (tick = 0.5 s of virtual time)
 An operation that is not applicable in the current state (e.g. `populate` without a reader) is skipped on
 both sides (`inv=1`); applicability is the same predicate on both sides.
@@ -93,13 +93,13 @@ def _cfg_line(cfg: dict) -> str:
     d, f = _expected_stats(cfg)
     return ('cfg user={user} creds=1 friends={friends} liked={liked} hated={hated} favs={favs} autojoin={autojoin} '
             'invites={invites} reconnect={reconnect} sfp={sfp} logconn={logconn} reqtimeout={reqtimeout} '
-            'wishlist={wishlist} scan={scan} slowscan={slowscan} clear={clear} obf={obf} clearfail={clearfail} '
+            'wishlist={wishlist} scan={scan} slowscan={slowscan} race={race} clear={clear} obf={obf} clearfail={clearfail} '
             'obffail={obffail} mode={mode} ndirs={ndirs} dirs={d} files={f}').format(
         user=cfg['user'], friends=lst(cfg['friends']), liked=lst(cfg['liked']), hated=lst(cfg['hated']),
         favs=lst(cfg['favs']), autojoin=int(cfg['autojoin']), invites=int(cfg['invites']),
         reconnect=int(cfg['reconnect']), sfp=int(cfg['sfp']), logconn=int(cfg['logconn']),
         reqtimeout=int(cfg['reqtimeout']), wishlist=cfg['wishlist'], scan=int(cfg['scan']),
-        slowscan=int(cfg['slowscan']), clear=cfg['clear'], obf=cfg['obf'], clearfail=int(cfg['clearfail']),
+        slowscan=int(cfg['slowscan']), race=int(cfg.get('race', False)), clear=cfg['clear'], obf=cfg['obf'], clearfail=int(cfg['clearfail']),
         obffail=int(cfg['obffail']), mode=cfg['mode'], ndirs=cfg['ndirs'], d=d, f=f)
 
 
@@ -157,6 +157,10 @@ class _Server:
                     writer.write(struct.pack('<II', 4, 1))      # a Login reply without a body
                 else:                                           # 'eof': close instead of answering
                     writer.close()
+            elif isinstance(msg, m.GetPeerAddress.Request):
+                # every peer is unreachable: its address is an endpoint that never completes the connect
+                writer.write(m.GetPeerAddress.Response(username=msg.username, ip=PP_ADDR[0], port=PP_ADDR[1],
+                                                       obfuscated_port_amount=0, obfuscated_port=0).serialize())
             elif isinstance(msg, m.AddUser.Request):
                 writer.write(m.AddUser.Response(username=msg.username, exists=True, status=2,
                                                 user_stats=m.UserStats(1, 1, 1, 1), country_code='BE').serialize())
@@ -236,7 +240,12 @@ def _run_impl(case: dict) -> dict:
         srv = _Server(m)
         endpoint = fakenet.Endpoint('accept', srv.handler)
         net.endpoints[('srv', SERVER_PORT)] = endpoint
-        net.endpoints[PP_ADDR] = fakenet.Endpoint('hang')
+        # peers are unreachable: the connect never completes — or (directed cases, `peerdelay` ticks) it would
+        # complete only after the scenario has called stop()
+        if cfg.get('peerdelay'):
+            net.endpoints[PP_ADDR] = fakenet.Endpoint('delay', None, delay=cfg['peerdelay'] * 0.5)
+        else:
+            net.endpoints[PP_ADDR] = fakenet.Endpoint('hang')
         if cfg['clearfail'] and cfg['clear']:
             net.bind_fail_ports.add(cfg['clear'])
         if cfg['obffail'] and cfg['obf']:
@@ -248,7 +257,8 @@ def _run_impl(case: dict) -> dict:
             network={'server': {'hostname': 'srv', 'port': SERVER_PORT,
                                 'reconnect': {'auto': cfg['reconnect'], 'timeout': 10}},
                      'listening': {'port': cfg['clear'], 'obfuscated_port': cfg['obf'], 'error_mode': cfg['mode']},
-                     'upnp': {'enabled': False}, 'peer': {'connect_mode': 'fallback'}},
+                     'upnp': {'enabled': False},
+                     'peer': {'connect_mode': 'race' if cfg.get('race') else 'fallback'}},
             users={'friends': list(cfg['friends'])},
             interests={'liked': list(cfg['liked']), 'hated': list(cfg['hated'])},
             rooms={'favorites': list(cfg['favs']), 'auto_join': cfg['autojoin'],
@@ -385,7 +395,7 @@ def _run_impl(case: dict) -> dict:
                     exe = 'refused'
                 except Exception as e:          # not refused, and the send failed
                     exe = 'error:' + type(e).__name__
-            elif k in ('populate', 'wl', 'pp'):
+            elif k in ('populate', 'wl', 'pp', 'sr'):
                 if not reader_alive():
                     inv = 1
                 elif k == 'populate':
@@ -400,6 +410,9 @@ def _run_impl(case: dict) -> dict:
                     srv.send(m.DistributedAliveInterval.Response(interval=60))
                 elif k == 'wl':
                     srv.send(m.WishlistInterval.Response(interval=WISHLIST_INTERVAL))
+                elif k == 'sr':
+                    srv.send(m.ServerSearchRequest.Response(distributed_code=3, unknown=0, username='asker',
+                                                            ticket=4242, query='file0'))
                 else:
                     srv.send(m.PotentialParents.Response(entries=[m.PotentialParent(username='ppuser', ip=PP_ADDR[0],
                                                                                     port=PP_ADDR[1])]))
@@ -697,7 +710,7 @@ def _gen_cfg(rng: random.Random) -> dict:
         'sfp': rng.random() < 0.75, 'logconn': rng.random() < 0.2, 'reqtimeout': rng.random() < 0.6,
         'wishlist': rng.choice([0, 0, 1, 2]), 'scan': rng.random() < 0.85, 'slowscan': rng.random() < 0.1,
         'clear': clear, 'obf': obf, 'clearfail': rng.random() < 0.08, 'obffail': rng.random() < 0.1, 'mode': mode,
-        'ndirs': rng.choice([0, 1, 2]), 'fpd': rng.choice([0, 1, 2, 3]),
+        'ndirs': rng.choice([0, 1, 2]), 'fpd': rng.choice([0, 1, 2, 3]), 'race': rng.random() < 0.5,
     }
 
 
@@ -771,7 +784,7 @@ def _gen_case(rng: random.Random) -> dict:
         if not sh['reader']:
             emit([rng.choice(['search', 'exec', 'exec'])])
             return
-        c = rng.choice(['populate', 'search', 'wl', 'pp', 'exec', 'search', 'populate', 'pp'])
+        c = rng.choice(['populate', 'search', 'wl', 'pp', 'exec', 'search', 'populate', 'pp', 'sr', 'sr'])
         if c == 'wl':
             if wl_used:
                 c = 'search'
@@ -879,7 +892,7 @@ def _base_cfg(**kw) -> dict:
     cfg = {'user': 'me', 'friends': ['f1', 'f2'], 'liked': ['rock'], 'hated': ['pop'], 'favs': ['room1', 'dev'],
            'autojoin': True, 'invites': True, 'reconnect': True, 'sfp': True, 'logconn': False, 'reqtimeout': True,
            'wishlist': 1, 'scan': True, 'slowscan': False, 'clear': 60000, 'obf': 60001, 'clearfail': False,
-           'obffail': False, 'mode': 'clear', 'ndirs': 1, 'fpd': 2}
+           'obffail': False, 'mode': 'clear', 'ndirs': 1, 'fpd': 2, 'race': False}
     cfg.update(kw)
     return cfg
 
@@ -893,6 +906,25 @@ DIRECTED = [
     # (b) potential-parent connect pending at stop()
     {'kind': 'directed-pp-stop', 'cfg': _base_cfg(reconnect=False),
      'ops': [['start'], ['login'], ['pp'], ['tick', 2]] + END},
+    {'kind': 'directed-pp-stop-race', 'cfg': _base_cfg(reconnect=False, race=True),
+     'ops': [['start'], ['login'], ['pp'], ['tick', 2]] + END},
+    # a search reply connecting to the asker at stop(): both connect modes, before / after the direct timeout
+    {'kind': 'directed-sr-stop', 'cfg': _base_cfg(reconnect=False),
+     'ops': [['start'], ['login'], ['sr'], ['tick', 2]] + END},
+    {'kind': 'directed-sr-stop-race', 'cfg': _base_cfg(reconnect=False, race=True),
+     'ops': [['start'], ['login'], ['sr'], ['pp'], ['tick', 2]] + END},
+    {'kind': 'directed-sr-stop-race-late', 'cfg': _base_cfg(reconnect=False, race=True),
+     'ops': [['start'], ['login'], ['sr'], ['tick', 19], ['tick', 1], ['pp'], ['tick', 30]] + END},
+    # the peer WOULD accept the connection 4 s after the attempt began; stop() comes first: nothing may be opened later
+    {'kind': 'directed-stop-before-peer-accepts', 'cfg': _base_cfg(reconnect=False, peerdelay=8),
+     'ops': [['start'], ['login'], ['sr'], ['pp'], ['tick', 2]] + END},
+    {'kind': 'directed-stop-before-peer-accepts-race', 'cfg': _base_cfg(reconnect=False, race=True, peerdelay=8),
+     'ops': [['start'], ['login'], ['sr'], ['pp'], ['tick', 2]] + END},
+    # connects that end by themselves (fallback 70 s, race 60 s), across a loss of the server connection
+    {'kind': 'directed-connect-expires', 'cfg': _base_cfg(reconnect=False),
+     'ops': [['start'], ['login'], ['sr'], ['pp'], ['tick', 100], ['loss', 'eof'], ['tick', 39], ['tick', 1]] + END},
+    {'kind': 'directed-connect-expires-race', 'cfg': _base_cfg(reconnect=False, race=True),
+     'ops': [['start'], ['login'], ['sr'], ['pp'], ['tick', 100], ['loss', 'eof'], ['tick', 19], ['tick', 1]] + END},
     # (c) stop() while the watchdog waits out the reconnect delay
     {'kind': 'directed-watchdog-stop', 'cfg': _base_cfg(),
      'ops': [['start'], ['login'], ['tick', 10], ['loss', 'read_error'], ['tick', 4]] + END},
@@ -941,9 +973,11 @@ class C16(Property):
     rule = ('full SoulSeekClient + scripted server on FakeNet under SimLoop; settings grid (0..2 listening ports incl. '
             'bind failures and the three error modes, 0..4 friends incl. the own name, 0..2 liked / hated interests, '
             '0..2 favourite rooms, auto_join, invites, reconnect.auto, search_for_parent, request timers, 0..2 wishlist '
-            'entries, 0..2 shared directories x 0..3 files, scan on start / slow scan) x scripts of up to 28 operations '
+            'entries, 0..2 shared directories x 0..3 files, scan on start / slow scan, peer.connect_mode fallback / race) x '
+            'scripts of up to 28 operations '
             '(login accepted / rejected / garbled / EOF, write failure at every burst frame, loss with each close '
-            'reason before login / idle / with searches, wishlist, potential-parent connects pending, server down / '
+            'reason before login / idle / with searches, wishlist, potential-parent and search-reply connects (incl. '
+            'their race children) pending, server down / '
             'up, waits around the reconnect delay, stop() at each point + 1 h of virtual time), derived from '
             'VERIF_SEED; a case is non-trivial when a session was initialised AND (a loss other than by stop() '
             'occurred OR work was pending at stop() OR a login variant other than accepted was used); distinct = '
@@ -951,8 +985,8 @@ class C16(Property):
     assumptions = [
         'asyncio / CPython semantics are exercised, not modelled; FakeNet stands in for TCP (close feeds EOF to both '
         'readers, reset makes reads and writes fail), SimLoop for time',
-        'peer.connect_mode = fallback in every scenario: the two child tasks of _create_peer_connection_race are '
-        'orphaned when their creator is cancelled (defect in the scope of C11, fix proposed there); UPnP disabled',
+        'peers are unreachable (the connect neither completes nor is refused before its timeout; in two directed '
+        'cases the peer would accept 4 s later, after stop()); no established peer connection; UPnP disabled',
         'the scripted server answers every AddUser at once (no tracking retries) and sends nothing unsolicited',
         'close reasons TIMEOUT and UNKNOWN are injected by calling ServerConnection.disconnect(reason), the call '
         'DataConnection._read/_send make on that path; EOF, READ_ERROR, WRITE_ERROR, REQUESTED, CONNECT_FAILED arise '
@@ -967,7 +1001,8 @@ class C16(Property):
                 'managers; life of every library task by spawn site (inventory tied to an ast scan of create_task / '
                 'BackgroundTask / Timer sites, of client.services and of the cancel calls on the shutdown paths). '
                 'Exercised but not modelled: transfers (no transfer in the scenarios), peer connections other than a '
-                'pending potential-parent connect in fallback mode, UPnP, tracking retries, a distributed parent at '
+                'pending potential-parent / search-reply connect to an unreachable peer (both connect modes), UPnP, tracking '
+                'retries, a distributed parent at '
                 'login time (model only)')
 
     def regenerate(self):
@@ -1028,7 +1063,7 @@ class C16(Property):
                 if op[0] == 'stop':
                     before = rows[c['ops'].index(op) - 1] if c['ops'].index(op) else None
                     if before is not None and any(t in before['tasks'] for t in
-                                                  ('timer', 'potential-parent', 'watchdog', 'scan', 'wishlist')):
+                                                  ('timer', 'potential-parent', 'search-reply', 'connect', 'watchdog', 'scan', 'wishlist')):
                         feats.add('pending-at-stop')
                         res.count('pending-work-at-stop')
                     if before is not None:
@@ -1046,7 +1081,7 @@ class C16(Property):
                         c, b[k] if k < len(b) else None, a[k] if k < len(a) else None,
                         f'op #{k}: {c["ops"][k] if k < len(c["ops"]) else ""}'))
             res.violations += _monitor(c, io)
-            if len(res.samples) < 3 and c['kind'] in ('directed-reconnect', 'directed-watchdog-stop', 'directed-pp-stop'):
+            if len(res.samples) < 3 and c['kind'] in ('directed-reconnect', 'directed-watchdog-stop', 'directed-sr-stop-race'):
                 res.samples.append({'case': c, 'impl': io['lines']})
         return res
 
